@@ -132,6 +132,7 @@ where
         let keep_alive = pkt.keep_alive;
         let max_packet_size = pkt.max_packet_size.map_or(0, NonZero::get);
         let max_receive = pkt.receive_max.map_or(65535, NonZero::get);
+        let topic_alias_max = pkt.topic_alias_max;
         let pool = self.pool.clone();
 
         let codec = codec::Codec::new();
@@ -158,6 +159,8 @@ where
                     let keep_alive = pkt.server_keepalive_sec.unwrap_or(keep_alive);
 
                     shared.set_cap(pkt.receive_max.get() as usize);
+                    // topic aliases accepted from the server, as announced in CONNECT
+                    shared.set_topic_alias_max(topic_alias_max);
 
                     Ok(Client::new(
                         io,
